@@ -53,6 +53,7 @@ structure World where
   handling the last fetched entry; handled after the join it sees the full log length and lifts the
   status to len/len, at a moment the trace does not record (seen under CPU load) -/
   lateLoad : List Nat := []
+  badOps : List Nat := []                         -- entries whose payload does not decode as an operation at all (a writer is not bound to the store API)
   liveLoaded : List Nat := []                     -- stores on which `Load` was called again while open (followed from the implementation until the next restart)
   partialStores : List Nat := []                  -- stores loaded with a limit below what is persisted (until the next unlimited load)
   /-- C05: per store key, the entries seen listed at rest or acknowledged to their writer: all of
@@ -447,7 +448,11 @@ def World.onObs1 (w : World) (toks : List String) : World :=
       let il := namesToNums idxS
       -- (an entry appended by a write that then failed — its head could not be persisted — is in the log
       -- but reaches the view only with the next successful update)
-      let w := if il != iv && il != iv.filter (fun n => !w.unacked.contains n) then w.fail "C08" "list" s!"peer {p}: List(-1) {showNums il} differs from the log listing {showNums iv}" else w
+      -- (and an entry whose payload is not an operation at all is not listed — nothing else is affected:
+      -- C12 when the log holds one)
+      let ivl := iv.filter (fun n => !w.badOps.contains n)
+      let prop := if ivl.length != iv.length then "C12" else "C08"
+      let w := if il != ivl && il != ivl.filter (fun n => !w.unacked.contains n) then w.fail prop "list" s!"peer {p}: List(-1) {showNums il} differs from the log listing {showNums ivl}" else w
       w
     | _ =>
       let iidx := parseKVs idxS
@@ -549,12 +554,18 @@ def World.onResult (w : World) (toks : List String) : World :=
   if r == "err" then w.fail "C08" "query" s!"peer {p}: query {" ".intercalate q} failed" else
   let impl := namesToNums r
   let s := w.store p
-  let model := (queryWin (values s.log) o).map (·.hash)
+  -- an entry whose payload is not an operation at all is not part of what an event log lists: windows
+  -- are taken over what can be listed (F48: the listing used to END at such an entry, silently)
+  let ops (l : List Entry) : List Entry := l.filter (fun e => !w.badOps.contains e.hash)
+  let model := (queryWin (ops (values s.log)) o).map (·.hash)
   let w := if model != impl then w.fail "corr" "result" s!"peer {p}: query model {showNums model}, implementation {showNums impl}" else w
-  -- C08: exact window of the implementation's own listing
-  let listing := w.entriesOf (w.obsOf p).values
+  -- C08: exact window of the implementation's own listing (C12 when the log holds such an entry: what
+  -- a payload that is not an operation may change is nothing)
+  let all := w.entriesOf (w.obsOf p).values
+  let listing := ops all
   let want := (windowSpec listing o).map (·.hash)
-  if want != impl then w.fail "C08" "window" s!"peer {p}: {" ".intercalate (q.drop 2)} over {showNums (listing.map (·.hash))} returned {showNums impl}, window is {showNums want}" else w
+  let prop := if all.length != listing.length then "C12" else "C08"
+  if want != impl then w.fail prop "window" s!"peer {p}: {" ".intercalate (q.drop 2)} over {showNums (listing.map (·.hash))} returned {showNums impl}, window is {showNums want}" else w
 
 def World.onGot (w : World) (toks : List String) : World :=
   let p := peerNum (toks.getD 1 "")
@@ -702,7 +713,7 @@ def World.step (w : World) (line : String) : World :=
       let lg := arg toks "log"
       let e := if lg == "db" then { e with logId := w.curDb + 1 }
                else if lg.startsWith "db" then { e with logId := natOr (lg.drop 2).toString 0 + 1 } else { e with logId := 9999 }
-      { w with entries := w.entries.push e }
+      { w with entries := w.entries.push e, badOps := if toks.contains "op=BAD" then n :: w.badOps else w.badOps }
   | "op" =>
     let w := { w with pending := toks.drop 1 }
     let h := toks.getD 1 ""
